@@ -72,15 +72,16 @@ namespace detail {
 // Per-stripe state. `end` is immutable after init; `next` is the shared
 // claim cursor (owner and stealers both fetch_add). Cache-line-isolated so
 // claim activity on one stripe doesn't false-share with adjacent stripes.
-// Stored as the widened type so fetch_add(chunkSize) past `end` cannot
-// overflow when IntegerT is a narrow type (e.g. int16_t over its full
-// range). The claim succeeds only while next < end; if a claim races past
-// end, we just fail-and-retire the stripe as usual.
+// The cursor counts iterations claimed so far, relative to the stripe's `begin`, in 64 unsigned
+// bits: fetch_add(chunkSize) past the end of the stripe cannot wrap whatever IntegerT is and
+// wherever the range lies (an absolute cursor wrapped for 64-bit ranges ending at the type's
+// maximum and handed out chunks starting at its minimum). The claim succeeds only while
+// next < len; if a claim races past the end, we just fail-and-retire the stripe as usual.
 template <typename IntegerT>
 struct alignas(kCacheLineSize) StripeCursor {
-  using WideT = typename std::conditional<std::is_signed<IntegerT>::value, int64_t, uint64_t>::type;
-  WideT end;
-  std::atomic<WideT> next;
+  IntegerT begin;
+  uint64_t len;
+  std::atomic<uint64_t> next;
   // True once any thread has observed `next >= end` and decremented
   // activeStripes. Prevents multiple decrements for the same stripe.
   std::atomic<bool> retired;
@@ -197,11 +198,10 @@ inline bool stripeClaim(
     uint32_t stripeIdx,
     IntegerT& outBegin,
     IntegerT& outEnd) {
-  using Wide = typename StripeCursor<IntegerT>::WideT;
   auto& s = state.stripes[stripeIdx];
-  const IntegerT chunkSize = state.chunkSize;
-  Wide prev = s.next.fetch_add(static_cast<Wide>(chunkSize), std::memory_order_relaxed);
-  if (prev >= s.end) {
+  const uint64_t chunkSize = static_cast<uint64_t>(state.chunkSize);
+  uint64_t prev = s.next.fetch_add(chunkSize, std::memory_order_relaxed);
+  if (prev >= s.len) {
     // Stripe exhausted before this claim. Try to be the one to retire it.
     bool expected = false;
     if (s.retired.compare_exchange_strong(
@@ -219,9 +219,13 @@ inline bool stripeClaim(
     }
     return false;
   }
-  outBegin = static_cast<IntegerT>(prev);
-  Wide endWide = prev + static_cast<Wide>(chunkSize);
-  outEnd = static_cast<IntegerT>(endWide > s.end ? s.end : endWide);
+  uint64_t endOff = prev + chunkSize;
+  if (endOff > s.len) {
+    endOff = s.len;
+  }
+  const uint64_t base = static_cast<uint64_t>(s.begin);
+  outBegin = static_cast<IntegerT>(base + prev);
+  outEnd = static_cast<IntegerT>(base + endOff);
   return true;
 }
 
@@ -435,8 +439,9 @@ inline void initStripeState(
         stripeEnd = end;
       }
     }
-    s.end = stripeEnd;
-    s.next.store(cursor, std::memory_order_relaxed);
+    s.begin = cursor;
+    s.len = static_cast<uint64_t>(stripeEnd) - static_cast<uint64_t>(cursor);
+    s.next.store(0, std::memory_order_relaxed);
     if (stripeEnd > cursor) {
       ++activeCount;
       s.retired.store(false, std::memory_order_relaxed);
